@@ -33,11 +33,13 @@ def parseLine (l : Line) : Option Obs := do
          err := ← (kv? l.obs "err").bind optNat,
          fs := ← (kv? l.obs "fs").bind optNat, fe := ← (kv? l.obs "fe").bind optNat,
          runs := ← nat l.obs "runs", stuck := ← flag l.obs "stuck",
-         panicked := (kv? l.obs "panic") = some "1" }
+         panicked := (kv? l.obs "panic") = some "1",
+         spanic := (kv? l.op "panic") = some "1" }
 
 /-- well-formedness of one observed call (a broken harness or a broken stamp order is a mismatch). -/
 def wellFormed (o : Obs) : Option String :=
   if !(o.inv < o.ret) then some "inv<ret"
+  else if o.id = 0 then some "id>0"      -- 0 stands for Go's zero value in the models
   else match o.fs, o.fe with
     | some s, some e => if o.runs = 0 then some "stamps-without-run" else if o.inv < s && s < e && e < o.ret then none else some "inv<fs<fe<ret"
     | none, none => if o.runs = 0 then none else some "run-without-stamps"
@@ -45,11 +47,27 @@ def wellFormed (o : Obs) : Option String :=
 
 def dupIds (h : List Obs) : Bool := h.any fun a => h.any fun b => a.id = b.id && a.line ≠ b.line
 
+/-- `1,5,9` / `-` → sorted list of ids. -/
+def idList (s : String) : Option (List Nat) :=
+  if s = "-" then some [] else (s.splitOn ",").mapM String.toNat?
+
 def runSection (r : Report) (s : Section) : Report := Id.run do
   let mode := kvStr s.cfg "mode" "?"
   let mut r := r
   let mut hist : Array Obs := #[]
+  let mut inj : List (Nat × Nat) := []        -- (key, instance id) registered with Inject before the run
+  let mut closeLine : Option Line := none
   for l in s.lines do
+    if mode = "rm" && l.op.head? = some "inject" then
+      match (kv? l.op "key").bind String.toNat?, (kv? l.op "id").bind String.toNat?, l.obs with
+      | some k, some n, ["ok"] =>
+        if hist.isEmpty && (inj.lookup k).isNone then inj := inj ++ [(k, n)]; r := r.addCover "rm-inject"
+        else r := r.mismatch s.idx l.idx "inject-before-calls-once-per-key" (joinSp l.op)
+      | _, _, _ => r := r.mismatch s.idx l.idx "unparsable-line" (joinSp (l.op ++ ["=>"] ++ l.obs))
+      continue
+    if mode = "rm" && l.op = ["close"] then
+      closeLine := some l
+      continue
     match parseLine l with
     | none => r := r.mismatch s.idx l.idx "unparsable-line" (joinSp (l.op ++ ["=>"] ++ l.obs))
     | some o =>
@@ -63,25 +81,57 @@ def runSection (r : Report) (s : Section) : Report := Id.run do
   let viol :=
     if mode = "sf" then sfViolations h
     else if mode = "lc" then lcViolations h
-    else if mode = "rm" then rmViolations h
+    else if mode = "rm" then rmViolations inj h
     else [(0, s!"unknown mode {mode}")]
   if mode ≠ "sf" && mode ≠ "lc" && mode ≠ "rm" then r := r.mismatch s.idx 0 "mode" mode
   for (ln, msg) in viol do
     r := r.violation s.idx ln msg
   -- the history must be a visible trace of the Lean model
   if viol.isEmpty then
-    match Explain.explain mode h with
+    match Explain.explain mode inj h with
     | .ok (steps, tags) =>
       r := r.addCover s!"{mode}-explained" 1 |>.addCover s!"{mode}-model-steps" steps
       for t in tags do r := r.addCover t
     | .error (ln, model, impl) => r := r.mismatch s.idx ln model impl
+  -- `Close` after all calls returned: it closes exactly the instances the manager holds — the registered ones and
+  -- the (single) successfully created one of every other key — each once.  (Not in the property text: a MISMATCH.)
+  match closeLine with
+  | none => pure ()
+  | some l =>
+    if kvStr l.obs "err" "?" = "skipped" then r := r.addCover "rm-close-skipped(stuck)"
+    else
+      match (kv? l.obs "closed").bind idList, (kv? l.obs "multi").bind idList with
+      | some once, some multi =>
+        let want := (inj.map (·.2) ++ (h.filter fun c => c.created && (inj.lookup c.key).isNone).map (·.id)).foldr insertSorted []
+        if once.foldr insertSorted [] ≠ want || multi ≠ [] || kvStr l.obs "err" "?" ≠ "-" then
+          r := r.mismatch s.idx l.idx s!"model: Close closes each held instance once: {want}" (joinSp l.obs)
+        else r := r.addCover "rm-close-all-held-instances-closed-once"
+      | _, _ => r := r.mismatch s.idx l.idx "unparsable-line" (joinSp (l.op ++ ["=>"] ++ l.obs))
   -- coverage counters
+  let via := kvStr s.cfg "via" ""
+  if via ≠ "" then
+    -- a user of SingleFlight driven through its own API (same monitor / model as ResourceManager.GetResource)
+    r := r.addCover s!"{via}-sections"
+    for o in h do
+      r := r.addCover s!"{via}-calls"
+      if o.ran && !o.serr then r := r.addCover s!"{via}-loaded"
+      if o.ran && o.serr then r := r.addCover s!"{via}-load-failed"
+      if !o.ran && o.err.isSome then r := r.addCover s!"{via}-joiner-got-leaders-error"
+      if !o.ran && o.val.isSome then
+        if h.any (fun l => some l.id = o.val && l.inv < o.ret && o.inv < l.ret && o.inv < l.fe.getD 0) then
+          r := r.addCover s!"{via}-joiner-got-leaders-value"
+        else r := r.addCover s!"{via}-got-cached-value"
   r := r.addCover s!"{mode}-sections"
+  if kvStr s.cfg "herd" "0" = "1" then r := r.addCover s!"{mode}-sections-herd"
+  if mode = "rm" && kvStr s.cfg "sfd" "-" ≠ "-" then r := r.addCover "rm-sections-delayed-flight-entry"
   for o in h do
     r := r.addCover s!"{mode}-calls"
     if o.ran then r := r.addCover s!"{mode}-executed" else r := r.addCover s!"{mode}-shared"
     if o.err.isSome then r := r.addCover s!"{mode}-err-result"
     if o.hold then r := r.addCover s!"{mode}-held"
+    if o.panicked then r := r.addCover s!"{mode}-fn-panicked"
+    if mode = "rm" && !o.ran && o.panicked then r := r.addCover "rm-joiner-of-panicked-flight-panics"
+    if mode = "sf" && !o.ran && o.val.isNone && !o.panicked then r := r.addCover "sf-joiner-of-panicked-flight-got-zero"
     if mode = "sf" then
       if !o.ran then
         match h.find? (fun l => some l.id = o.val) with
@@ -98,9 +148,10 @@ def runSection (r : Report) (s : Section) : Report := Id.run do
       if h.any (fun p => p.key = o.key && p.id ≠ o.id && p.ran && o.ran && p.inv < o.inv && o.inv < p.fe.getD 0) then
         r := r.addCover "lc-waited-for-running-call"
     if mode = "rm" then
-      if o.ran && !o.serr then r := r.addCover "rm-created"
-      if o.ran && o.serr then r := r.addCover "rm-create-failed"
+      if o.created then r := r.addCover "rm-created"
+      if o.ran && o.serr && !o.spanic then r := r.addCover "rm-create-failed"
       if !o.ran && o.val.isSome then r := r.addCover "rm-got-existing"
+      if (inj.lookup o.key).isSome then r := r.addCover "rm-call-on-registered-key"
   return r
 
 def driver (secs : List Section) : Report := secs.foldl runSection {}
